@@ -10,5 +10,5 @@ func (p *Path) enableConfine() {
 	p.confine = &confineState{}
 }
 
-func (p *Path) confinePoolGet() Value { return IfaceV{} }
+func (p *Path) confinePoolGet() Value  { return IfaceV{} }
 func (p *Path) confinePoolPut(v Value) {}
